@@ -9,31 +9,31 @@ var five = []string{"avx2", "asm", "purego", "u32", "i386"}
 
 // wide = five + the configuration dimensions that are not backends in the sense of the property texts but that real
 // builds and hosts differ in: GOAMD64 level, CPU feature bits other than AVX2, number of Ps
-var wide = []string{"avx2", "asm", "purego", "u32", "i386", "v3", "nocpu", "purego-p6", "asm-p3", "u32-p1", "avx2-p7"}
-var seven = []string{"avx2", "asm", "purego", "u32", "i386", "v3", "nocpu"}
+var wide = []string{"avx2", "asm", "purego", "u32", "i386", "i386f64", "v3", "nocpu", "purego-p6", "asm-p3", "u32-p1", "avx2-p7"}
+var seven = []string{"avx2", "asm", "purego", "u32", "i386", "i386f64", "v3", "nocpu"}
 
 // fivePlusP / sevenPlusP add two runs of non-vector backends under numbers of Ps that divide no power of two
 var fivePlusP = []string{"avx2", "asm", "purego", "u32", "i386", "purego-p6", "asm-p3"}
-var sevenPlusP = []string{"avx2", "asm", "purego", "u32", "i386", "v3", "nocpu", "purego-p6", "asm-p3"}
+var sevenPlusP = []string{"avx2", "asm", "purego", "u32", "i386", "i386f64", "v3", "nocpu", "purego-p6", "asm-p3"}
 
 var specs = map[string]propSpec{
-	"C01": {ID: "C01", Instr: "tick", Quick: five, Thorough: seven, Assume: []string{"SHA-512 of the Go standard library", "the reference predicate is the formula in the property statement evaluated on affine big-integer points"}},
-	"C02": {ID: "C02", Quick: five, Thorough: seven, Assume: []string{"crypto/ed25519 and the big-integer RFC 8032 signer are independent oracles that agree with each other"}},
-	"C03": {ID: "C03", Quick: five, Thorough: sevenPlusP, Assume: []string{"affine big-integer group law; discrete-log bookkeeping for long sums"}},
+	"C01": {ID: "C01", Thresh: true, Instr: "tick", Quick: five, Thorough: seven, Assume: []string{"SHA-512 of the Go standard library", "the reference predicate is the formula in the property statement evaluated on affine big-integer points"}},
+	"C02": {ID: "C02", Thresh: true, Quick: five, Thorough: seven, Assume: []string{"crypto/ed25519 and the big-integer RFC 8032 signer are independent oracles that agree with each other"}},
+	"C03": {ID: "C03", Thresh: true, Quick: five, Thorough: sevenPlusP, Assume: []string{"affine big-integer group law; discrete-log bookkeeping for long sums"}},
 	"C04": {ID: "C04", Situ: "field", Quick: five, Thorough: seven, Assume: []string{"limb headroom stressed = the budget documented in the code comments (u64 < 2^54, u32 +1.75 bits) and, for AVX2 lanes, the envelope measured in situ"}},
 	"C05": {ID: "C05", Quick: seven, Thorough: seven},
 	"C06": {ID: "C06", Quick: wide, Thorough: wide, Special: "c06", Assume: []string{"the deterministic workload enumerates the exported API by hand; the reach meter reports exported functions it does not execute"}},
 	"C07": {ID: "C07", Quick: five, Thorough: seven, Assume: []string{"big-integer RFC 7748 ladder; golang.org/x/crypto/curve25519 and crypto/ecdh as second oracles"}},
 	"C08": {ID: "C08", Quick: []string{"avx2", "purego"}, Thorough: three, Special: "c08", TimeoutS: 1800, Assume: []string{"valgrind 3.19 lackey traces (instruction and data addresses) of forked children sharing one address-space image; data-dependent instruction latency is not a trace event; holds for the secrets tried"}},
-	"C09": {ID: "C09", Quick: five, Thorough: seven, Assume: []string{"random 128-bit batch coefficients make a false batch accept negligible (2^-120); no coefficient-aware forgeries are constructed"}},
+	"C09": {ID: "C09", Thresh: true, Quick: five, Thorough: seven, Assume: []string{"random 128-bit batch coefficients make a false batch accept negligible (2^-120); no coefficient-aware forgeries are constructed"}},
 	"C10": {ID: "C10", Quick: five, Thorough: seven},
 	"C11": {ID: "C11", Quick: fivePlusP, Thorough: sevenPlusP, Assume: []string{"RFC 9496 pseudocode in big integers"}},
-	"C12": {ID: "C12", Quick: five, Thorough: seven, Assume: []string{"reference schnorrkel over the reference Merlin/STROBE/Keccak and ristretto255"}},
-	"C13": {ID: "C13", Quick: seven, Thorough: seven, Assume: []string{"reference Keccak-f[1600] validated against x/crypto/sha3 SHAKE128 at start-up"}},
+	"C12": {ID: "C12", Thresh: true, Quick: five, Thorough: seven, Assume: []string{"reference schnorrkel over the reference Merlin/STROBE/Keccak and ristretto255"}},
+	"C13": {ID: "C13", Thresh: true, Quick: seven, Thorough: seven, Assume: []string{"reference Keccak-f[1600] validated against x/crypto/sha3 SHAKE128 at start-up"}},
 	"C14": {ID: "C14", Quick: five, Thorough: seven, Assume: []string{"RFC 9380 pseudocode in big integers; Go standard hashes and x/crypto/sha3"}},
 	"C15": {ID: "C15", Quick: five, Thorough: seven, Assume: []string{"RFC 9381 reference prover/verifier in big integers"}},
 	"C16": {ID: "C16", Instr: "tick", Situ: "lattice", Quick: five, Thorough: seven, Assume: []string{"termination is decided on loop ticks (budget >= 100x the observed maximum), not wall-clock"}},
-	"C17": {ID: "C17", Situ: "digits", Quick: []string{"avx2", "u32", "i386", "v3", "nocpu"}, Thorough: seven},
+	"C17": {ID: "C17", Situ: "digits", Quick: []string{"avx2", "u32", "i386", "i386f64", "v3", "nocpu"}, Thorough: seven},
 	"C18": {ID: "C18", Quick: []string{"race", "racepurego"}, Thorough: []string{"race", "racepurego"}, Special: "c18", TimeoutS: 1800, Assume: []string{"Go race detector (does not see assembly: the purego build makes the serial Go code visible)", "porcupine v1.3.0 linearizability checker against a sequential LRU model"}},
 	"C19": {ID: "C19", Instr: "tick", Quick: five, Thorough: seven, Assume: []string{"documented panics are taken from the doc comments; termination is decided on loop ticks"}},
 	"C20": {ID: "C20", Quick: seven, Thorough: seven, Assume: []string{"exhaustive over the finite set of constants/table entries enumerated by the dumper"}},
